@@ -28,7 +28,7 @@ def run(res, args):
         # dispatch refutations: probe the three non-table arms through the CLI
         failed = []
         for kw, want in (('transparent', [0, 0, 0]), ('TransParent', [0, 0, 0]), ('#102030', [16, 32, 48]), ('Red', [255, 0, 0]), ('red', [255, 0, 0]), ('nosuchcolour', None), ('#12', None),
-                         ('##fff', None), ('###80123abc', None), ('#', None), ('##', None), ('# fff', None), ('#fff#', None), (' #fff', None), ('#ffff ', None)):
+                         ('blac\u212a', None), ('\u212ahaki', None), ('HotPin\u212a', None), ('\u017filver', None), ('BLAC\u212a', None), ('##fff', None), ('###80123abc', None), ('#', None), ('##', None), ('# fff', None), ('#fff#', None), (' #fff', None), ('#ffff ', None)):
             rep, info = O.replay_color_keyword(kw, want, d)
             if rep:
                 failed.append(info)
